@@ -84,6 +84,21 @@ def monthPlus (m : Int) (k : Int) : Int := (m - 1 + k) % 12 + 1
 def yearMonthPlus (y m k : Int) : Int × Int := (y + (m - 1 + k) / 12, (m - 1 + k) % 12 + 1)
 def weekdayPlus (w k : Int) : Int := (w + k) % 7
 
+/-! ### `± months` / `± years` of the multi-field calendar types
+[time.cal.ym.nonmembers], [time.cal.ymd.nonmembers], [time.cal.ymdlast.nonmembers], [time.cal.ymwd.nonmembers],
+[time.cal.ymwdlast.nonmembers]: `x + dm` is `(x.year() / x.month() + dm) / <third field of x>`, `x + dy` is
+`(x.year() + dy) / x.month() / <third field of x>`; `dm + x`, `x += dm` are `x + dm`; `x - dm`, `x -= dm` are `x + -dm`.
+The third field (day, weekday_indexed, weekday_last) is `f`: these operations never look at it. -/
+
+/-- [time.cal.ym.nonmembers] `ym1 - ym2`: the number of months from `ym2` to `ym1` -/
+def yearMonthDiff (y1 m1 y2 m2 : Int) : Int := (y1 - y2) * 12 + (m1 - m2)
+/-- (year, month) + n years -/
+def yearMonthPlusYears (y m k : Int) : Int × Int := (y + k, m)
+/-- (year, month, f) + n months: the month is normalised into 1..12, the carry goes into the year, `f` is kept -/
+def datePlusMonths (y m f k : Int) : Int × Int × Int := ((yearMonthPlus y m k).1, (yearMonthPlus y m k).2, f)
+/-- (year, month, f) + n years -/
+def datePlusYears (y m f k : Int) : Int × Int × Int := (y + k, m, f)
+
 
 /-! ### weekday-indexed dates ([time.cal.ymwd], [time.cal.ymwdlast]) in terms of the calendar above -/
 
